@@ -60,11 +60,11 @@ var a1Wrappers = map[string]bool{
 }
 
 type a1Result struct {
-	call    ssa.CallInstruction
-	callee  string
-	status  string // ok | excepted | ignored | violated
-	fate    string
-	detail  string
+	call   ssa.CallInstruction
+	callee string
+	status string // ok | excepted | ignored | violated
+	fate   string
+	detail string
 }
 
 func (p *Prog) a1Func(f *ssa.Function) []a1Result {
